@@ -75,6 +75,8 @@ ValOf(name) ==
     \* longer than every input: whether Zip pulls its first iterator once more after the second ran dry
     \* depends on std's TrustedRandomAccess specialisation, which is not part of any documented meaning
     [] name = "iter2"  -> Iter(<<I(7), I(8), I(9), I(10), I(11)>>)
+    \* zip's operand: longer than any iterator a chain of the explored length can build (see iter2)
+    [] name = "iterL"  -> Iter([i \in 1 .. 24 |-> I(i + 100)])
     [] name = "zero"   -> I(0)
 
 ---------------------------------------------------------------------------
@@ -136,7 +138,7 @@ Ty0(t, op, arg) ==
     [] t = "ItI" /\ op = "find_map" /\ arg = "half" -> "OI"
     [] t = "ItI" /\ op = "enumerate" -> "ItEP"
     [] t = "ItI" /\ op = "chain" /\ arg = "iter2" -> "ItI"
-    [] t = "ItI" /\ op = "zip" /\ arg = "iter2" -> "ItP"
+    [] t = "ItI" /\ op = "zip" /\ arg = "iterL" -> "ItP"
     [] t = "ItOI" /\ op = "flatten" -> "ItI"
     [] t = "ItI" /\ op = "fold" /\ arg = "addAcc" -> "I"
     [] t = "ItI" /\ op = "try_fold" /\ arg = "tryAcc" -> "OI"
@@ -476,7 +478,7 @@ StartTypes == {"OI", "OOI", "RI", "ItI", "ItOI", "ItP", "VI"}
 
 \* the item alphabet
 Prims == {"inc", "dbl", "half", "chk", "isEven", "isSome", "mk9", "rec", "refail", "e10", "psum", "addAcc", "tryAcc", "nop", "idt", "wrapSome",
-          "alt9", "altNone", "altOk9", "altErr7", "iter2", "unwrap_or0", "is_some", "ok_or5", "into_iter", "ok", "count", "sum", "last", "len", ""}
+          "alt9", "altNone", "altOk9", "altErr7", "iter2", "iterL", "unwrap_or0", "is_some", "ok_or5", "into_iter", "ok", "count", "sum", "last", "len", ""}
 Ops == {"map", "and_then", "filter", "dot", "then", "or", "or_else", "map_err", "collect", "chain", "find_map", "filter_map",
         "enumerate", "partition", "flatten", "fold", "try_fold", "find", "zip", "unzip", "inspect"}
 WrapOps == {"map", "and_then", "filter", "inspect", "filter_map", "find", "find_map", "partition", "or_else", "map_err"}
